@@ -399,5 +399,3 @@ def replay(ck, path):
     res = runner.run_batch(c07.harness(), [("replay", r.get("script", []))])
     print("\n".join(res["replay"]["out"]))
     ck.evaluations = 1
-    ck.nontriv(1)
-    ck.nontriv(2)
